@@ -22,6 +22,12 @@ GPre(w) == /\ todo[w] /\ OpOf[w] \in {"root", "child"}
            /\ todo' = [todo EXCEPT ![w] = FALSE]
            /\ legal' = (legal /\ smtx = None) /\ smtx' = w
            /\ Rec(w, "log.pre")
+GLoad(w) == /\ todo[w] /\ OpOf[w] \in {"root", "child"}
+            /\ Load(w, IF OpOf[w] = "root" THEN Root ELSE Child)
+            /\ todo' = [todo EXCEPT ![w] = FALSE]
+            /\ legal' = (legal /\ smtx = None) /\ smtx' = w
+            /\ Rec(w, "nextseq.loaded")
+GPreLoaded(w) == PreLoaded(w) /\ Rec(w, "log.pre") /\ UNCHANGED <<todo, smtx, legal>>
 GFlush(w) == Flush(w) /\ Rec(w, "log.flushed") /\ UNCHANGED <<todo, smtx, legal>>
 GCache(w) == Cache(w) /\ Rec(w, "cache.exit") /\ UNCHANGED <<todo, smtx, legal>>
 GFin(w)   == Fin(w) /\ Rec(w, "api.return") /\ smtx' = None /\ UNCHANGED <<todo, legal>>
@@ -31,7 +37,7 @@ GCreate(w) == /\ todo[w] /\ OpOf[w] = "branch" /\ CreatePre(w)
 GLinPre(w) == LineagePre(w) /\ Rec(w, "log.pre") /\ legal' = (legal /\ smtx = None) /\ UNCHANGED <<todo, smtx>>
 GLinFin(w) == LineageFin(w) /\ Rec(w, "api.return") /\ legal' = (legal /\ smtx = None) /\ UNCHANGED <<todo, smtx>>
 
-GNext == \E w \in Writers : GPre(w) \/ GFlush(w) \/ GCache(w) \/ GFin(w)
+GNext == \E w \in Writers : GPre(w) \/ GLoad(w) \/ GPreLoaded(w) \/ GFlush(w) \/ GCache(w) \/ GFin(w)
                             \/ GCreate(w) \/ GLinPre(w) \/ GLinFin(w)
 GSpec == GInit /\ [][GNext]_gvars
 
